@@ -603,6 +603,61 @@ func (g *gen) blocks(variant int) {
 	g.finish(r.Intn(2))
 }
 
+// nodes: the inner-node container of the radix tree driven directly: insert distinct bytes in adversarial orders across the
+// 4 / 16 / 48 / 256 boundaries, look every byte up (present and absent), replace children, list in both directions.
+func (g *gen) nodes(variant int) {
+	r := g.r
+	g.startCase("nodes", "reset")
+	g.do("nreset")
+	n := []int{3, 4, 5, 15, 16, 17, 18, 47, 48, 49, 50, 100, 255, 256}[variant%14]
+	// byte order: ascending, descending, interleaved, random
+	perm := make([]int, 256)
+	for i := range perm {
+		perm[i] = i
+	}
+	switch (variant / 14) % 4 {
+	case 1:
+		for i := range perm {
+			perm[i] = 255 - i
+		}
+	case 2:
+		for i := range perm {
+			perm[i] = (i * 37) % 256
+		}
+	case 3:
+		for i := 255; i > 0; i-- {
+			j := r.Intn(i + 1)
+			perm[i], perm[j] = perm[j], perm[i]
+		}
+	}
+	id := 1
+	for i := 0; i < n; i++ {
+		g.do(fmt.Sprintf("nadd %02x %d", perm[i], id))
+		id++
+		if i%7 == 3 || i == n-1 || i == 3 || i == 4 || i == 15 || i == 16 || i == 47 || i == 48 {
+			g.do(fmt.Sprintf("nfind %02x", perm[r.Intn(i+1)]))
+			g.do(fmt.Sprintf("nfind %02x", r.Intn(256)))
+			g.do("nlist")
+		}
+		if r.Chance(10) {
+			g.do(fmt.Sprintf("nrepl %02x %d", perm[r.Intn(i+1)], id))
+			id++
+		}
+		if r.Chance(3) {
+			g.do(fmt.Sprintf("nrepl %02x %d", r.Intn(256), id)) // mostly absent: the documented panic
+			id++
+		}
+		if r.Chance(3) {
+			g.do(fmt.Sprintf("nadd %02x %d", perm[r.Intn(i+1)], id)) // present: dup (not issued to addChild)
+		}
+	}
+	for c := 0; c < 256; c += 1 + r.Intn(5) {
+		g.do(fmt.Sprintf("nfind %02x", c))
+	}
+	g.do("nlist")
+	g.do("nrlist")
+}
+
 func generate(run *vx.Run, wd *world) {
 	g := &gen{run: run, wd: wd, r: vx.NewRand(run.Seed)}
 	pool := exhaustivePool()
@@ -614,6 +669,13 @@ func generate(run *vx.Run, wd *world) {
 	}
 	for i := 0; i < nb; i++ {
 		g.blocks(i)
+	}
+	nn := 56
+	if run.Thorough() {
+		nn = 560
+	}
+	for i := 0; i < nn; i++ {
+		g.nodes(i)
 	}
 	if run.Thorough() {
 		g.exhaustive(pool, 1, "exh1")
